@@ -307,10 +307,10 @@ func runConcClient(r *common.Run, sched []int, users []string, class string) {
 }
 
 var credPool = []cred{
-	{"user", "secret"},                      // accepted
-	{"user", "secreX"},                      // refused, same lengths
-	{"u", "no"},                             // refused, shorter
-	{"administrator", "a-longer-password"},  // accepted, longer
+	{"user", "secret"},                     // accepted
+	{"user", "secreX"},                     // refused, same lengths
+	{"u", "no"},                            // refused, shorter
+	{"administrator", "a-longer-password"}, // accepted, longer
 }
 
 var acceptPool = []cred{credPool[0], credPool[3]}
